@@ -23,7 +23,8 @@ DRIVER = pm.DRIVER
 ACCESS_DENIED = b"org.freedesktop.DBus.Error.AccessDenied"
 
 RULE = ("per scenario a generated configuration of 3..25 <allow>/<deny> rules over default / user / group / "
-        "mandatory contexts (several <policy> elements per context, file order shuffled; rules with only boolean "
+        "mandatory / at_console=\"false\" contexts (several <policy> elements per context, users and groups by name or "
+        "numeric id, file order shuffled; rules with only boolean "
         "or modifier attributes, '*' wildcards, flipped / generalised copies shadowing earlier rules, word-boundary "
         "prefixes), 3..5 raw clients under 2..3 uids, a registry with a connection owning several names, queued "
         "owners and names under prefixes, then 100..300 probes: method_call / method_return / error / signal, "
@@ -254,7 +255,7 @@ def _gen_own_rule(rng, V):
     return collections.OrderedDict([("own_prefix", rng.choice(V["prefixes"]))])
 
 
-def _base_rules(rng, V):
+def _base_rules(rng, V, eaves=False):
     """Leading allows so that roughly half of all probes are permitted."""
     out = []
     r = rng.random()
@@ -270,7 +271,9 @@ def _base_rules(rng, V):
     if rng.random() < 0.45:
         out.append({"send_type": rng.choice(["method_return", "error", "*"]), "send_requested_reply": "false"})
     r = rng.random()
-    if r < 0.3:
+    if eaves and r < 0.6:
+        out.append({"eavesdrop": "true"})
+    elif r < 0.3:
         out.append({"receive_sender": "*"})
     elif r < 0.45:
         out.append({"receive_type": "*"})
@@ -303,7 +306,7 @@ def gen_blocks(rng, V, users, extra_users, no_dest):
             blocks.append({"ctx": "user", "who": u["user"], "rules": []})
             if rng.random() < 0.25:
                 blocks[-1]["who_xml"] = str(u["uid"])          # "username or userid"
-        if rng.random() < 0.35:
+        if rng.random() < 0.45:
             blocks.append({"ctx": "group", "who": u["group"], "rules": []})
             if rng.random() < 0.25:
                 blocks[-1]["who_xml"] = str(u["gid"])
@@ -320,15 +323,18 @@ def gen_blocks(rng, V, users, extra_users, no_dest):
     rng.shuffle(tail)
     blocks = [first] + tail
     total = rng.randint(3, 25)
-    base = _base_rules(rng, V)[:total]
+    base = _base_rules(rng, V, no_dest)[:total]
     first["rules"] += base
     made = list(base)
     weights = [4 if b is first else 2 for b in blocks]
     for _ in range(total - len(base)):
         b = rng.choices(blocks, weights)[0]
         r = rng.random()
-        if made and r < 0.2:
+        if made and r < 0.25:
             src = rng.choice(made)
+            oth = [x for x in blocks if not any(y is src for y in x["rules"])]
+            if oth and rng.random() < 0.7:
+                b = rng.choice(oth)     # the same question answered differently in another context
             attrs = collections.OrderedDict(src["attrs"])
             allow = not src["allow"]
             k = pm.kind_of(src)
@@ -394,9 +400,8 @@ def gen_script(rng, sid, users, tier):
         assign[0], assign[1] = us[0], us[1]
     if eaves:
         assign[-1] = owner
-        if len(set(u["user"] for u in assign[:-1])) < 2 and len(assign) > 3:
-            others = [u for u in us if u is not assign[0]]
-            assign[1] = others[0]
+        if len(set(u["user"] for u in assign)) < 2:
+            assign[0] = [u for u in us if u is not owner][0]
     clients = [{"user": u["user"], "uid": u["uid"], "gid": u["gid"], "group": u["group"], "listen": None, "owner": False}
                for u in assign]
     active = list(range(ncl))
@@ -571,6 +576,10 @@ class Scn(object):
                     if r.msg.type != 2:
                         raise Abort("AddMatch refused: %r" % (r,))
             self.part.count("stages:fresh")
+            self.part.count("scenario-clients:%d" % len(self.clients))
+            self.part.count("scenario-uids:%d" % len(set(m["uid"] for m in self.script["clients"])))
+            if self.eaves():
+                self.part.count("scenario-with-eavesdropper")
         else:
             self.daemon.reload_config(text)
             r = self.clients[0].bus_call(b"ReloadConfig")
@@ -586,6 +595,11 @@ class Scn(object):
             if not b.get("fixed"):
                 self.part.count("rules-generated", len(b["rules"]))
                 self.part.count("ctx-block:" + b["ctx"])
+                for r in b["rules"]:
+                    for a in r["attrs"]:
+                        self.part.count("rule-attr:" + a)
+                    if _optimizer_catch_all(r) and pm.kind_of(r) in ("send", "receive"):
+                        self.part.count("rules-with-only-boolean-or-wildcard-attributes")
 
     def finish(self):
         for c in self.clients:
@@ -745,10 +759,24 @@ class Scn(object):
                     return n1 + "+" + n2
         return None
 
-    def note_decision(self, kind, d, shape, confirmed=True):
+    def where(self, kind, d):
+        """Position class of the deciding rule among the GENERATED rules of its kind that apply to
+        the connection (the two fixed harness rules at the very end are not counted)."""
+        if d.rule is None:
+            return "no-match"
+        if d.rule.get("fixed"):
+            return "fixed-harness-rule"
+        n = d.n - 1 if kind in ("send", "receive") else d.n     # one fixed rule of each message kind
+        if n == 1:
+            return "only"
+        if d.pos == n - 1:
+            return "last"
+        return "first" if d.pos == 0 else "middle"
+
+    def note_decision(self, kind, d, shape):
         p = self.part
         p.count("%s:%s" % (kind, "allowed" if d.allowed else "denied"))
-        p.count("winner-pos:%s:%s" % (kind, d.where()))
+        p.count("winner-pos:%s:%s" % (kind, self.where(kind, d)))
         if d.silent:
             p.count("silent1_dependent")
         if d.rule is not None:
@@ -759,7 +787,29 @@ class Scn(object):
                 for a in d.rule["attrs"]:
                     p.count("winner-attr:" + a)
         if d.n >= 2:
-            p.sig(kind, shape, d.label(), d.rule["ctx"] if d.rule else "-", d.where())
+            p.sig(kind, shape, d.label(), d.rule["ctx"] if d.rule else "-", self.where(kind, d))
+
+    def note_registry_shape(self, d, names, addressed_name):
+        """How the deciding owner-based rule matched: via a name the peer only queues for, or via
+        another name than the one the message was addressed to."""
+        if d.rule is None:
+            return
+        a = d.rule["attrs"]
+        v = a.get("send_destination") or a.get("receive_sender")
+        pre = a.get("send_destination_prefix")
+        hit = []
+        if v not in (None, "*"):
+            hit = [v] if v in names else []
+        elif pre is not None:
+            hit = [n for n in names if not n.startswith(":") and pm.word_prefix(n, pre)]
+        if not hit:
+            return
+        peer = [i for i in self.live() if self.clients[i].unique.decode() in names][0]
+        self.part.count("owner-rule-decided")
+        if all(self.primary(n) != peer for n in hit):
+            self.part.count("owner-rule-decided:via-queued-ownership-only")
+        if addressed_name is not None and addressed_name not in hit:
+            self.part.count("owner-rule-decided:via-other-name-than-addressed")
 
     def exec_own(self, op):
         c, name = op["c"], op["name"]
@@ -865,6 +915,12 @@ class Scn(object):
                 os.close(fd)
         inbox = self.observe(c)
         got = self.tokens_in(inbox, op)
+        # reply multiplicity (DESIGN 1.3): every driver reply must belong to a call that waited for it
+        for i, recs in inbox.items():
+            for r in recs:
+                if r.msg.type in (2, 3) and r.msg.known().get(7) == DRIVER.encode() and \
+                        not (i == c and r.msg.known().get(5) == serial):
+                    self.violation("reply-multiplicity", "client %d holds an extra driver reply: %r" % (i, r), op)
         errs = [r for r in inbox[c] if r.msg.type == 3 and r.msg.known().get(5) == serial]
         others = [r for r in inbox[c] if r.msg.type == 2 and r.msg.known().get(5) == serial]
         denied_errs = [r for r in errs if r.msg.known().get(4) == ACCESS_DENIED and r.msg.known().get(7) == DRIVER.encode()]
@@ -993,15 +1049,17 @@ class Scn(object):
                 self.violation("error-despite-delivery", "delivered message also answered by the bus", op, observed=obs)
                 return
             self.note_decision("send", s, shape)
+            self.note_registry_shape(s, self.names_of(addressed), dname)
             if s.allowed:
                 self.note_decision("receive", r, shape)
+                self.note_registry_shape(r, snames, None)
             for j in eav:
                 if j != c and delivered:
                     self.part.count("eavesdropper:" + ("must-not-receive(confirmed)" if j in mustnot else
                                                        "unjudged(silent point 4/8):%s" % ("got" if got.get(j) else "not-got")))
             if len(self.part.samples) < 6 and s.n >= 3:
                 self.part.sample({"kind": shape, "sender": self.meta(c)["user"], "message": msg, "requested_reply": requested,
-                                  "send": [s.allowed, s.label(), s.where()], "receive": [r.allowed, r.label(), r.where()],
+                                  "send": [s.allowed, s.label(), self.where("send", s)], "receive": [r.allowed, r.label(), self.where("receive", r)],
                                   "delivered": delivered})
         else:
             if errs or others:
@@ -1089,6 +1147,7 @@ def _extra(r):
         return {k[len(prefix):]: int(v) for k, v in sorted(r.counters.items()) if k.startswith(prefix)}
     r.extra["decisive_rule_position"] = grab("winner-pos:")
     r.extra["attributes_in_deciding_rules"] = grab("winner-attr:")
+    r.extra["attributes_in_generated_rules"] = grab("rule-attr:")
     r.extra["contexts_of_deciding_rules"] = grab("winner-ctx:")
     r.extra["probes_per_type"] = grab("probe:")
     r.extra["named_deviations"] = [n for n, _ in DEVIATIONS]
